@@ -66,7 +66,7 @@ def site_reason(site, t):
         return 'MultilineSetting'
     if multi and site == 'table_prop':
         return 'MultilineProp'
-    if multi and any(l != '' and l.strip(' ') == '' for l in t.split('\n')):
+    if multi and (any(l != '' and l.strip(' ') == '' for l in t.split('\n')) or all(l.strip(' ') == '' for l in t.split('\n'))):
         return 'WhitespaceOnlyLine'
     if not multi and "'''" in t:
         return 'TripleQuote'
